@@ -85,15 +85,24 @@ func (stressArea) Run(line string) string {
 	if len(f) != 5 {
 		return "bad-op"
 	}
+	if stressFailed { // one failure is the verdict; do not spend a deadline per remaining line
+		return "ok skipped-after-failure"
+	}
 	g, m := hx.Atoi(f[1]), hx.Atoi(f[2])
+	out := "bad-op"
 	switch f[0] {
 	case "sync":
-		return stressSync(g, m, hx.Atoi(f[3]), f[4] == "1")
+		out = stressSync(g, m, hx.Atoi(f[3]), f[4] == "1")
 	case "buf":
-		return stressBuf(g, m, hx.Atoi(f[3]), f[4] == "1")
+		out = stressBuf(g, m, hx.Atoi(f[3]), f[4] == "1")
 	}
-	return "bad-op"
+	if strings.HasPrefix(out, "FAIL") {
+		stressFailed = true
+	}
+	return out
 }
+
+var stressFailed bool
 
 // handlerFor gives goroutine i its own derivation of the shared root (every third one adds a group).
 func handlerFor(root slog.Handler, i int) slog.Handler {
@@ -231,7 +240,7 @@ func stressBuf(g, m, depth int, stall bool) string {
 	go func() { wg.Wait(); close(done) }()
 	select {
 	case <-done:
-	case <-time.After(10 * time.Second):
+	case <-time.After(5 * time.Second):
 		return "FAIL Handle blocked in buffered mode while the sink was stalled"
 	}
 	if stall {
